@@ -106,10 +106,10 @@ Proof.
   rewrite Hb, Hp, put_prefix, <- !app_assoc. reflexivity.
 Qed.
 
-Theorem step_refines t a o : R t a ->
-  let '(t', o1) := step t o in let '(a', o2) := astep a o in o1 = o2 /\ R t' a'.
+Theorem bstep_refines t a o : R t a ->
+  let '(t', o1) := bstep t o in let '(a', o2) := astep a o in o1 = o2 /\ R t' a'.
 Proof.
-  intros HR. pose proof HR as (Hb & Hp & Hr). destruct o as [b|bs|k|r bs]; cbn [step astep].
+  intros HR. pose proof HR as (Hb & Hp & Hr). destruct o as [b|bs|k|r bs]; cbn [bstep astep].
   - apply write_at_refines; exact HR.
   - apply write_at_refines; exact HR.
   - assert (E: length (buf t) - pos t = length (tail a)) by (rewrite Hb, Hp, app_length; lia).
@@ -145,16 +145,16 @@ Theorem run_refines ops : forall t a, R t a ->
   snd (run t ops) = snd (arun a ops) /\ R (fst (run t ops)) (fst (arun a ops)).
 Proof.
   induction ops as [|o ops IH]; intros t a HR; cbn [run arun]; [auto|].
-  pose proof (step_refines t a o HR) as H.
-  destruct (step t o) as [t' o1], (astep a o) as [a' o2]. destruct H as [-> HR'].
+  pose proof (bstep_refines t a o HR) as H.
+  destruct (bstep t o) as [t' o1], (astep a o) as [a' o2]. destruct H as [-> HR'].
   specialize (IH t' a' HR'). destruct (run t' ops), (arun a' ops). cbn [fst snd] in *.
   destruct IH as [-> ?]. auto.
 Qed.
 
 (* failed operations change nothing *)
-Theorem failed_is_noop t o : snd (step t o) <> Done -> fst (step t o) = t.
+Theorem failed_is_noop t o : snd (bstep t o) <> Done -> fst (bstep t o) = t.
 Proof.
-  destruct o as [b|bs|k|r bs]; cbn [step]; unfold write_at.
+  destruct o as [b|bs|k|r bs]; cbn [bstep]; unfold write_at.
   - destruct (Nat.leb _ _); cbn; congruence.
   - destruct (Nat.leb _ _); cbn; congruence.
   - destruct (Nat.leb _ _); cbn; congruence.
@@ -162,10 +162,10 @@ Proof.
 Qed.
 
 (* the fixed-slice target never changes its size, the cursor never passes the end *)
-Lemma step_len t a o : R t a -> length (buf (fst (step t o))) = length (buf t).
+Lemma bstep_len t a o : R t a -> length (buf (fst (bstep t o))) = length (buf t).
 Proof.
   intros (Hb & Hp & Hr). assert (Hle : pos t <= length (buf t)) by (rewrite Hb, Hp, app_length; lia).
-  destruct o as [b|bs|k|r bs]; cbn [step]; unfold write_at.
+  destruct o as [b|bs|k|r bs]; cbn [bstep]; unfold write_at.
   - destruct (Nat.leb_spec (length [b]) (length (buf t) - pos t)); cbn [fst buf]; auto. apply put_length. cbn [length] in *. lia.
   - destruct (Nat.leb_spec (length bs) (length (buf t) - pos t)); cbn [fst buf]; auto. apply put_length. lia.
   - destruct (Nat.leb k (length (buf t) - pos t)); reflexivity.
@@ -182,8 +182,8 @@ Theorem never_past_end_gen ops : forall t a, R t a ->
 Proof.
   induction ops as [|o ops IH]; intros t a HR; cbn [run].
   - split; [reflexivity|eapply R_pos_le; eauto].
-  - pose proof (step_refines t a o HR) as H. pose proof (step_len t a o HR) as Hl.
-    destruct (step t o) as [t' o1], (astep a o) as [a' o2]. destruct H as [_ HR']. cbn [fst] in Hl.
+  - pose proof (bstep_refines t a o HR) as H. pose proof (bstep_len t a o HR) as Hl.
+    destruct (bstep t o) as [t' o1], (astep a o) as [a' o2]. destruct H as [_ HR']. cbn [fst] in Hl.
     specialize (IH t' a' HR'). destruct (run t' ops). cbn [fst] in *. lia.
 Qed.
 Theorem never_past_end ops b : let t := fst (run (init b) ops) in length (buf t) = length b /\ pos t <= length b.
@@ -191,14 +191,14 @@ Proof. cbv zeta. apply (never_past_end_gen ops (init b) (ainit b) (init_R b)). Q
 
 (* a write into a reservation changes only bytes inside it and shrinks it from the front *)
 Theorem reservation_confined t a r bs s e : R t a -> nth_error (res t) r = Some (s, e) ->
-  snd (step t (WRes r bs)) = Done ->
-  let t' := fst (step t (WRes r bs)) in
+  snd (bstep t (WRes r bs)) = Done ->
+  let t' := fst (bstep t (WRes r bs)) in
   s + length bs <= e /\ e <= pos t /\
   firstn s (buf t') = firstn s (buf t) /\ skipn (s + length bs) (buf t') = skipn (s + length bs) (buf t) /\
   firstn (length bs) (skipn s (buf t')) = bs /\ pos t' = pos t /\
   nth_error (res t') r = Some (s + length bs, e).
 Proof.
-  intros (Hb & Hp & Hr) Hn. cbn [step]. rewrite Hn.
+  intros (Hb & Hp & Hr) Hn. cbn [bstep]. rewrite Hn.
   pose proof (fill_spec (segs a) 0 r bs) as F. rewrite <- Hr, Hn in F. destruct F as (_ & _ & Hse & He & _).
   destruct (Nat.leb_spec (length bs) (e - s)); cbn [fst snd]; [|congruence]. intros _.
   cbn [buf pos res]. rewrite <- Hp in He. cbn in He.
